@@ -1,10 +1,353 @@
 import DaeVerif.C16.Proofs
-/-! # C16 — property theorems (work in progress) -/
+/-!
+# C16 — property theorems
+
+Only statements a reader should audit live here (namespace `DaeVerif.C16.Props`); definitions they
+mention (`step`, `run`, `touch`, `specCount`, `touchAddr`, `specAddr`, `ForcedCause`, `EdgesAt`,
+`AgreeAt`, `SetInv`, `Event.OK`, `Event.Sane`, …) are in `Model.lean` / `Proofs.lean`.
+Every theorem is about the definitions the driver `c16drv` executes, quantifies over all states /
+histories / latency inputs, and is followed by a non-vacuity `example`.
+
+Clause map of the property statement:
+* thresholds, "only after k consecutive failures, no success in between" — `dead_only_after_threshold`,
+  `threshold_reached_kills`, `below_threshold_stays`;
+* forced report / escalation — `forced_report_kills_immediately`, `escalation_takes_all_types_down`,
+  `escalation_only_after_three_deaths`;
+* success revives and clears — `success_revives_and_clears`, `data_udp_traffic_revives`,
+  `traffic_success_clears_traffic_count`;
+* cancellation / teardown never counts — `ignorable_never_counts`, `canceled_probe_never_counts`;
+* reload suppression — `suppressed_failures_dont_count`, `suppression_window`;
+* callbacks exactly once per transition — `callbacks_on_edges_only`, `callbacks_on_edges_only_history`;
+* every group sees the node's state — `groups_see_state`;
+* kernel bit — `kernel_bit_partial` (+ `kernel_bit_full`, `kernel_bit_full_fails`), `group_callbacks_are_edges`,
+  `random_policy_never_writes`, `kernel_key_injective`;
+* reload — `reload_hands_over_state`, `reload_snapshot_drops_counters`, `reload_floor_leaves_selectable`.
+-/
 namespace DaeVerif.C16.Props
 open DaeVerif.C16
 
-/-- Ignorable (cancellation / teardown) errors never count. -/
+/-! ## thresholds -/
+
+/-- **Headline (histories).** Take any history from the initial state whose restore steps carry
+sanitised snapshots (what `ReloadHealthSnapshot` produces) and any next event.  If node `n` is alive for
+collection index `i` before the event and not alive after it, then the event is a forced report on
+that slot, a restore of the node, an escalation of the node in this step — or it is a counted
+failure (not ignorable, not suppressed) of one source on exactly that slot, and the number of such
+counted failures since the last success of that counter (`specCount`, a function of the history
+only) has reached the documented threshold: 1 (TCP probe) / 3 (UDP probe) / 10 (TCP traffic) /
+50 (UDP traffic). -/
+theorem dead_only_after_threshold (h : List Event) (hs : ∀ e ∈ h, e.Sane) (e : Event) (n i : Nat)
+    (ha : (((run World.init h).1).nodes n).alive i = true)
+    (hd : ((step (run World.init h).1 e).1.nodes n).alive i = false) :
+    ForcedCause (run World.init h).1 n i e ∨
+    (∃ t : Typ, t.idx = i ∧ touch false n i (run World.init h).1 e = .fail ∧
+      threshold t.isUdp false ≤ specCount false n i World.init (h ++ [e]) 0) ∨
+    (∃ t : Typ, t.idx = i ∧ touch true n i (run World.init h).1 e = .fail ∧
+      threshold t.isUdp true ≤ specCount true n i World.init (h ++ [e]) 0) := by
+  have init0 : ∀ tr, CountInv tr n i World.init 0 := by
+    intro tr _; cases tr <;> simp [cnt, World.init, Node.fresh]
+  rcases death_step (run World.init h).1 e n i ha hd with h1 | ⟨t, h1, h2, h3⟩ | ⟨t, h1, h2, h3⟩
+  · left; exact h1
+  · right; left
+    refine ⟨t, h1, h2, ?_⟩
+    have := countInv_run false n i h World.init 0 hs (init0 false) ha
+    rw [specCount_append, h2]; simp only [Touch.next]; omega
+  · right; right
+    refine ⟨t, h1, h2, ?_⟩
+    have := countInv_run true n i h World.init 0 hs (init0 true) ha
+    rw [specCount_append, h2]; simp only [Touch.next]; omega
+
+/-- three UDP probe failures in a row: dead exactly at the third, streak = 3 -/
+example :
+    let h : List Event := [.node 0 1, .probe 0 .d4 .err .err [], .probe 0 .d4 .err .err []]
+    let e : Event := .probe 0 .d4 .err .err []
+    (((run World.init h).1).nodes 0).alive 2 = true ∧ ((step (run World.init h).1 e).1.nodes 0).alive 2 = false ∧
+      specCount false 0 2 World.init (h ++ [e]) 0 = 3 ∧ touch false 0 2 (run World.init h).1 e = .fail := by
+  decide
+
+/-- a success in between restarts the streak: after fail, fail, ok, fail the node is still alive -/
+example :
+    let h : List Event := [.node 0 1, .probe 0 .d4 .err .err [], .probe 0 .d4 .err .err [],
+      .probe 0 .d4 (.ok 5) .err [], .probe 0 .d4 .err .err []]
+    (((run World.init h).1).nodes 0).alive 2 = true ∧ specCount false 0 2 World.init h 0 = 1 := by
+  decide
+
+/-- **Exactness.** A counted failure that brings the slot's counter to the threshold does kill it … -/
+theorem threshold_reached_kills (w : World) (n : Nat) (t : Typ) (tr : Bool) (o : Oracle) (hs : w.suppressed = false)
+    (hc : threshold t.isUdp tr ≤ cnt tr (w.nodes n) t.idx + 1) :
+    ((markUnavail w n t tr o).1.nodes n).alive t.idx = false :=
+  threshold_kills w n t tr o hs hc
+
+/-- … and one below the threshold leaves the alive flag as it was. -/
+theorem below_threshold_stays (w : World) (n : Nat) (t : Typ) (tr : Bool) (o : Oracle)
+    (hc : cnt tr (w.nodes n) t.idx + 1 < threshold t.isUdp tr) :
+    ((markUnavail w n t tr o).1.nodes n).alive t.idx = (w.nodes n).alive t.idx :=
+  below_threshold_keeps w n t tr o hc
+
+example : threshold false false = 1 ∧ threshold true false = 3 ∧ threshold false true = 10 ∧ threshold true true = 50 := by
+  decide
+
+/-- A forced report kills the slot at once, whatever the counters and the suppression state. -/
+theorem forced_report_kills_immediately (w : World) (n : Nat) (t : Typ) (o : Oracle) :
+    ((step w (.forced n t o)).1.nodes n).alive t.idx = false := by
+  simp [step, markForced_nodes, forced_alive_self]
+
+/-- **Escalation.** When a counted failure makes `recordProxyFailure` report the threshold
+(`escalates`), every network type of that node is down afterwards. -/
+theorem escalation_takes_all_types_down (w : World) (n : Nat) (t : Typ) (tr : Bool) (o : Oracle)
+    (hs : w.suppressed = false) (he : escalates w n t tr = true) (t' : Typ) :
+    ((markUnavail w n t tr o).1.nodes n).alive t'.idx = false :=
+  escalation_all_dead w n t tr o hs he t'
+
+/-- **Escalation (histories).** An escalation of node `n` happens only at a counted, non-suppressed
+failure of `n` that is itself a death transition, for a non-empty proxy address, and when the number of
+death transitions recorded for that address since the last success of any node with that address (or
+the reload reset) has reached `maxConsecutiveFailures` = 3. -/
+theorem escalation_only_after_three_deaths (h : List Event) (e : Event) (n : Nat)
+    (hesc : Out.escalate n ∈ (step (run World.init h).1 e).2) :
+    (((run World.init h).1).nodes n).addr ≠ 0 ∧
+    touchAddr (((run World.init h).1).nodes n).addr (run World.init h).1 e = .fail ∧
+    maxConsecutiveFailures ≤ specAddr (((run World.init h).1).nodes n).addr World.init (h ++ [e]) 0 := by
+  obtain ⟨t, tr, hc, hs, he⟩ := step_esc _ e n hesc
+  have hinit : AddrInv (((run World.init h).1).nodes n).addr World.init 0 :=
+    ⟨by simp [FailWF, fkeys, World.init], by simp [World.init, failLookup_nil]⟩
+  have hwf0 : FailWF (run World.init h).1 := by
+    have : AddrInv 1 World.init 0 := ⟨by simp [FailWF, fkeys, World.init], by simp [World.init, failLookup_nil]⟩
+    exact (addrInv_run 1 (by decide) h World.init 0 this).1
+  obtain ⟨s1, s2, s3, s4⟩ := escalates_spec _ n t tr hwf0 he
+  have hinv := addrInv_run _ s3 h World.init 0 hinit
+  have hd : diesBy (run World.init h).1 n t tr = true := by simp [diesBy, hs, s1, s2]
+  have ht := touchAddr_of_counted _ n t tr e hc hd
+  refine ⟨s3, ht, ?_⟩
+  rw [specAddr_append, ht]
+  simp only [Touch.next]
+  have := hinv.2
+  omega
+
+/-- three TCP deaths of nodes sharing address 1: the third escalates and takes node 1 down everywhere -/
+example :
+    let h : List Event := [.node 0 1, .node 1 1, .probe 0 .t4 .err .err [], .probe 0 .t6 .err .err []]
+    let e : Event := .probe 1 .t4 .err .err []
+    Out.escalate 1 ∈ (step (run World.init h).1 e).2 ∧
+      ([2, 3, 4, 5, 6, 7].all fun i => !((step (run World.init h).1 e).1.nodes 1).alive i) = true := by
+  decide
+
+/-! ## successes -/
+
+/-- Any successful probe makes the slot alive and clears both counters. -/
+theorem success_revives_and_clears (w : World) (n : Nat) (t : Typ) (a1 a2 : Attempt) (o : Oracle) (l : Nat)
+    (h : probeOutcome a1 a2 = .success l) :
+    ((step w (.probe n t a1 a2 o)).1.nodes n).alive t.idx = true ∧
+    ((step w (.probe n t a1 a2 o)).1.nodes n).fail t.idx = 0 ∧
+    ((step w (.probe n t a1 a2 o)).1.nodes n).tfail t.idx = 0 := by
+  simp [step, h, markAvail_nodes, Node.avail]
+
+example : probeOutcome (.ok 7) .err = .success 7 ∧ probeOutcome .err (.ok 7) = .success 7 := by decide
+
+/-- For data UDP, successful traffic makes a dead slot alive again and clears both counters. -/
+theorem data_udp_traffic_revives (w : World) (n : Nat) (t : Typ) (o : Oracle) (hd : t.isData = true) :
+    ((step w (.tok n t o)).1.nodes n).alive t.idx = true ∧
+    ((step w (.tok n t o)).1.nodes n).tfail t.idx = 0 ∧
+    ((w.nodes n).alive t.idx = false → ((step w (.tok n t o)).1.nodes n).fail t.idx = 0) := by
+  simp only [step, trafficOk_nodes, hd, Bool.true_and]
+  cases ha : (w.nodes n).alive t.idx <;> simp [Node.avail, Node.clearTraffic, ha]
+
+/-- For every network type successful traffic clears the traffic counter (and, outside data UDP, never
+changes the alive flag). -/
+theorem traffic_success_clears_traffic_count (w : World) (n : Nat) (t : Typ) (o : Oracle) :
+    ((step w (.tok n t o)).1.nodes n).tfail t.idx = 0 ∧
+    (t.isData = false → ((step w (.tok n t o)).1.nodes n).alive t.idx = (w.nodes n).alive t.idx) := by
+  simp only [step, trafficOk_nodes]
+  cases hd : t.isData <;> cases ha : (w.nodes n).alive t.idx <;> simp [Node.avail, Node.clearTraffic, ha]
+
+/-! ## errors that never count -/
+
+/-- Reports whose error is a cancellation / closed-connection error change nothing. -/
 theorem ignorable_never_counts (w : World) (n : Nat) (t : Typ) (o : Oracle) :
     step w (.txn n t true o) = (w, []) ∧ step w (.tfail n t true o) = (w, []) := ⟨rfl, rfl⟩
+
+/-- A probe that ends in `context.Canceled` (on either attempt) or finds no applicable address changes nothing. -/
+theorem canceled_probe_never_counts (w : World) (n : Nat) (t : Typ) (a1 a2 : Attempt) (o : Oracle)
+    (h : probeOutcome a1 a2 = .nothing) : step w (.probe n t a1 a2 o) = (w, []) := by
+  simp [step, h]
+
+example : probeOutcome .canceled .err = .nothing ∧ probeOutcome .err .canceled = .nothing ∧
+    probeOutcome .skip .err = .nothing ∧ probeOutcome .err .skip = .nothing ∧ probeOutcome .err .err = .failure := by
+  decide
+
+/-! ## reload suppression -/
+
+/-- While reload suppression is in force, non-forced failures of every source change nothing. -/
+theorem suppressed_failures_dont_count (w : World) (n : Nat) (t : Typ) (a1 a2 : Attempt) (o : Oracle)
+    (hs : w.suppressed = true) (hp : probeOutcome a1 a2 = .failure) :
+    step w (.probe n t a1 a2 o) = (w, []) ∧ step w (.txn n t false o) = (w, []) ∧
+    step w (.tfail n t false o) = (w, []) := by
+  simp [step, hp, markUnavail_suppressed w n t _ o hs]
+
+/-- Suppression is in force exactly while a begin is outstanding or within `quiesce` (20 s) after the
+last matching end. -/
+theorem suppression_window (w : World) :
+    w.suppressed = true ↔ (0 < w.supCount ∨ w.now < w.supUntil) := by
+  simp [World.suppressed]
+
+example :
+    let w1 := (run World.init [.sbegin, .send, .tick (quiesce - 1)]).1
+    let w2 := (run World.init [.sbegin, .send, .tick quiesce]).1
+    w1.suppressed = true ∧ w2.suppressed = false := by decide
+
+/-! ## transition callbacks -/
+
+/-- **Edges only.** For every state, every event (other than creating node `n` itself) and every slot
+`(n, i)`: the alive values handed to the transition callback for that slot during the event, replayed
+from the slot's flag before the event, flip the flag each time and end at the flag after the event —
+one callback per actual transition, none without one. -/
+theorem callbacks_on_edges_only (w : World) (e : Event) (n i : Nat) (hne : ∀ a, e ≠ .node n a) :
+    replay ((w.nodes n).alive i) (transOf n i (step w e).2) = some (((step w e).1.nodes n).alive i) :=
+  step_edges n i w e hne
+
+/-- The same along whole histories. -/
+theorem callbacks_on_edges_only_history (w : World) (es : List Event) (n i : Nat)
+    (hne : ∀ e ∈ es, ∀ a, e ≠ .node n a) :
+    replay ((w.nodes n).alive i) (transOf n i (run w es).2) = some (((run w es).1.nodes n).alive i) :=
+  run_edges n i es w hne
+
+/-- kill, revive, kill again: three callbacks, alternating -/
+example :
+    let w := (run World.init [.node 0 0]).1
+    let es : List Event := [.forced 0 .u4 [], .forced 0 .u4 [], .tok 0 .u4 [], .tok 0 .u4 [], .forced 0 .x4 []]
+    transOf 0 6 (run w es).2 = [false, true, false] := by decide
+
+/-! ## groups -/
+
+/-- **Group agreement.** After any history from the initial state (any latency inputs), every registered
+set of every group lists a member node exactly when that node is alive for the set's network type,
+and its entries are duplicate-free. -/
+theorem groups_see_state (h : List Event) :
+    ∀ s ∈ (run World.init h).1.sets, (keys s.entries).Nodup ∧
+      (s.active = true → ∀ m ∈ s.members, (m ∈ keys s.entries ↔ ((run World.init h).1.nodes m).alive s.idx = true)) := by
+  have := run_inv h World.init inv_init
+  intro s hs
+  refine ⟨this.1 s hs, fun hact m hm => ?_⟩
+  rcases this.2 s hs hact m hm with h1 | h1
+  · exact absurd h1 id
+  · exact h1
+
+example :
+    let h : List Event := [.node 0 0, .node 1 0, .group 0 2 .minLast 0 [(0, 0), (1, 0)] [], .group 1 3 .random 0 [(1, 0)] [],
+      .forced 1 .t4 []]
+    ((run World.init h).1.sets.map fun s => (s.gid, s.idx, keys s.entries)) =
+      [(0, 2, [0, 1]), (0, 3, [0, 1]), (0, 4, [0]), (0, 5, [0, 1]), (0, 6, [0, 1]), (0, 7, [0, 1]),
+       (1, 2, [1]), (1, 3, [1]), (1, 4, []), (1, 5, [1]), (1, 6, [1]), (1, 7, [1])] := by decide
+
+/-! ## kernel connectivity bit -/
+
+/-- One notification of a latency-policy set (satisfying the set invariant, latency below the
+one-hour sentinel): the group callbacks fired are exactly the edges of "the set is non-empty". -/
+theorem group_callbacks_are_edges (s : ASet) (d : Nat) (a : Bool) (lat : Option Int) (h : SetInv s)
+    (hl : LatOK s d lat) (hmp : s.minPolicy = true) :
+    replay (!s.entries.isEmpty) (s.notify d a lat).2 = some (!(s.notify d a lat).1.entries.isEmpty) :=
+  notify_replay s d a lat h hl hmp
+
+/-- A random-policy set never fires the group callback (its kernel bit keeps the init value). -/
+theorem random_policy_never_writes (s : ASet) (d : Nat) (a : Bool) (lat : Option Int) (h : s.minPolicy = false) :
+    (s.notify d a lat).2 = [] :=
+  notify_nonmin_silent s d a lat h
+
+/-- Full-strength statement (no assumption on latencies): after any history the value last handed to
+the group callback of a latency-policy set equals "the set is non-empty" (unless no callback has fired
+since the init callbacks).  **False for the code as it is** — see `kernel_bit_full_fails`. -/
+def kernel_bit_full : Prop :=
+  ∀ h : List Event, ∀ s ∈ (run World.init h).1.sets, s.minPolicy = true →
+    (s.entries ≠ [] → s.kbit = true) ∧ (s.entries = [] → s.kbit = false ∨ s.ncb = 0)
+
+/-- **Kernel bit (partial: latencies and offsets far below one hour).** After any history whose latency
+inputs are below 40 min and whose groups have tolerance and offsets ≤ 10 min (`Event.OK`), every
+latency-policy set satisfies: non-empty ⇒ the bit last written is 1; empty ⇒ the bit last written is 0
+(or nothing was written since the init callbacks).  Missing w.r.t. `kernel_bit_full`: sorting latencies
+≥ 1 h − tolerance, for which `NotifyLatencyChange` refuses to select the node (the `time.Hour` sentinel). -/
+theorem kernel_bit_partial (h : List Event) (hok : ∀ e ∈ h, e.OK) :
+    ∀ s ∈ (run World.init h).1.sets, SetInv s ∧ (s.minPolicy = true →
+      (s.entries ≠ [] → s.kbit = true) ∧ (s.entries = [] → s.kbit = false ∨ s.ncb = 0)) := by
+  have := run_good h World.init hok (by intro s hs; simp [World.init] at hs)
+  intro s hs
+  exact ⟨(this s hs).1, (this s hs).1.bit⟩
+
+/-- all members die (bit 0), one revives by traffic without any latency (bit 1 again — finding #13) -/
+example :
+    let h : List Event := [.node 0 0, .node 1 0, .group 0 2 .minLast 0 [(0, 0), (1, 0)] [],
+      .forced 0 .u4 [], .forced 1 .u4 [], .tok 1 .u4 []]
+    (∀ e ∈ h, e.OK) ∧
+    ((run World.init (h.take 5)).1.sets.map fun s => (s.idx, s.kbit)) =
+      [(2, true), (3, true), (4, true), (5, true), (6, false), (7, true)] ∧
+    ((run World.init h).1.sets.map fun s => (s.idx, s.kbit, keys s.entries)) =
+      [(2, true, [0, 1]), (3, true, [0, 1]), (4, true, [0, 1]), (5, true, [0, 1]), (6, true, [1]), (7, true, [0, 1])] := by
+  refine ⟨?_, by decide, by decide⟩
+  intro e he
+  simp only [List.mem_cons, List.not_mem_nil, or_false] at he
+  rcases he with rfl | rfl | rfl | rfl | rfl | rfl <;>
+    simp [Event.OK, Event.oracle, Oracle.Small, slack]
+
+/-- The unrestricted statement fails: a node that revives with a sorting latency above one hour is added
+to the set but never selected, so no callback fires and the bit stays 0 with a non-empty set. -/
+theorem kernel_bit_full_fails : ¬ kernel_bit_full := by
+  intro hfull
+  have := hfull [.node 0 0, .group 0 2 .minLast 0 [(0, 0)] [], .forced 0 .t4 [],
+    .probe 0 .t4 (.ok 0) .err [((0, 4, 0), hour + 1)]]
+  revert this
+  decide
+
+/-- Distinct (outbound, network type) pairs write distinct keys of `outbound_connectivity_map`, inside
+the six slots of their outbound. -/
+theorem kernel_key_injective (ob ob' i i' : Nat) (hi : 2 ≤ i ∧ i ≤ 7) (hi' : 2 ≤ i' ∧ i' ≤ 7)
+    (h : kernelKey ob i = kernelKey ob' i') : ob = ob' ∧ i = i' :=
+  kernelKey_inj ob ob' i i' hi hi' h
+
+theorem kernel_key_slots (ob i : Nat) (hi : 2 ≤ i ∧ i ≤ 7) : ob * 6 ≤ kernelKey ob i ∧ kernelKey ob i < ob * 6 + 6 :=
+  kernelKey_range ob i hi
+
+example : (standardTyps.map fun t => kernelKey 2 t.idx) = [14, 15, 12, 13, 16, 17] := by decide
+
+/-! ## reload -/
+
+/-- `ReloadHealthSnapshot` keeps availability and drops both counters. -/
+theorem reload_snapshot_drops_counters (nd : Node) (i : Nat) :
+    (reloadSnapshot nd).alive i = nd.alive (canon i) ∧ (reloadSnapshot nd).fail i = 0 ∧ (reloadSnapshot nd).tfail i = 0 :=
+  ⟨rfl, rfl, rfl⟩
+
+/-- **Hand-over.** After `n.RestoreHealthSnapshot(m.ReloadHealthSnapshot())` node `n` has `m`'s alive flag
+for every collection and all sixteen counters at zero. -/
+theorem reload_hands_over_state (w : World) (n m : Nat) (o : Oracle) (i : Nat) (hi : i < 8) :
+    ((step w (.inherit n m o)).1.nodes n).alive (canon i) = (w.nodes m).alive (canon i) ∧
+    ((step w (.inherit n m o)).1.nodes n).fail i = 0 ∧ ((step w (.inherit n m o)).1.nodes n).tfail i = 0 :=
+  inherit_nodes w n m o i hi
+
+/-- **Floor.** In a world whose sets satisfy the invariant, after `EnsureReloadSelectionFloor` on group
+`g`: for each of the six standard network types whose set is registered, has members and whose
+fallback candidate (if any) is a member, the set is non-empty — and, for a latency policy, has a
+selected best node (`GetMinLatency` returns it). -/
+theorem reload_floor_leaves_selectable (w : World) (g : Nat) (fb : Nat → Option Nat) (o : Oracle)
+    (hgood : ∀ s ∈ w.sets, GoodSet s) (ho : o.Small)
+    (hready : ∀ t ∈ standardTyps, ∀ s, findSet w.sets g t.idx = some s →
+      s.active = true ∧ s.members ≠ [] ∧ ∀ c, fb t.idx = some c → c ∈ s.members) :
+    ∀ t ∈ standardTyps, ∀ s, findSet (step w (.floor g fb o)).1.sets g t.idx = some s →
+      s.entries ≠ [] ∧ (s.minPolicy = true → s.minD.isSome = true) := by
+  intro t ht s hs
+  have hnd : SetsAll NodupSet w := fun s hs => (hgood s hs).1.nodup
+  have h1 := (floorFrom_props g fb o standardTyps w hnd hready).2 t ht s hs
+  have h2 := floorFrom_pres GoodSet o (goodSet_stable o ho) standardTyps w g fb hgood s (findSet_mem _ _ _ _ hs).1
+  refine ⟨h1, fun hmp => ?_⟩
+  have := (h2.1.sel hmp)
+  cases hm : s.minD with
+  | some _ => rfl
+  | none => exact absurd (this.mp hm) h1
+
+/-- a new generation inherits an all-dead TCP4 state; the floor revives the first member -/
+example :
+    let h : List Event := [.node 0 0, .node 1 0, .forced 0 .t4 [], .forced 1 .t4 [],
+      .node 2 0, .node 3 0, .group 0 2 .minAvg 0 [(2, 0), (3, 0)] [], .inherit 2 0 [], .inherit 3 1 []]
+    let w := (run World.init h).1
+    ((findSet w.sets 0 4).map fun s => (keys s.entries, s.kbit)) = some ([], false) ∧
+    ((findSet (step w (.floor 0 (fun _ => none) [])).1.sets 0 4).map fun s => (keys s.entries, s.kbit, s.minD)) =
+      some ([2], true, some 2) := by decide
 
 end DaeVerif.C16.Props
